@@ -169,14 +169,12 @@ fn valid_version(v: &debversion::Version) -> bool {
         Some(r) => format!("{}-{}", v.upstream_version, r),
         None => v.upstream_version.clone(),
     };
-    if !is_ident(&body) {
+    if !crate::relspec::body_ok(v.epoch.is_some(), &body) {
         return false;
     }
-    // the value of that text: split at the last hyphen when both sides are non-empty
-    let (up, rev) = match body.rfind('-') {
-        Some(i) if i >= 1 && i + 1 < body.len() => (body[..i].to_string(), Some(body[i + 1..].to_string())),
-        _ => (body.clone(), None),
-    };
+    // the value of that text: split at the last hyphen when both sides are non-empty (and the right
+    // side can be a revision)
+    let (up, rev) = crate::relspec::split_rev(&body);
     up == v.upstream_version && rev == v.debian_revision
 }
 
@@ -488,7 +486,7 @@ pub fn generate_c11_extra(_tier: &str, _seed: u64, out: &mut Out) {
 const NAMES: [&str; 4] = ["a", "libc6", "g++", "x.y~1"];
 const ARCHS: [&str; 3] = ["amd64", "i386", "linux-any"];
 const PROFS: [&str; 3] = ["nocheck", "cross", "pkg.x"];
-const VERS: [&str; 7] = ["1", "2.3-4", "1:2.0~rc1", "0:1-2-3", "4294967295:0", "a-b.c+d", "7~~"];
+const VERS: [&str; 9] = ["1", "2.3-4", "1:2.0~rc1", "0:1-2-3", "4294967295:0", "a-b.c+d", "7~~", "1:2:3", "1:2-3:4"];
 const OPS: [VersionConstraint; 5] = [
     VersionConstraint::GreaterThanEqual,
     VersionConstraint::LessThanEqual,
